@@ -1083,6 +1083,11 @@ def result_scope(prog: Program) -> RuleResult:
                     and isinstance(it.func.value, ast.Attribute) and it.func.value.attr == "tree"
                 )
                 text = ast.unparse(it)
+                # ... and none of them is skipped: nothing in that loop stands between a species and the update
+                inside = {id(x) for x in ast.walk(inner)}
+                filt = [t for t, _pol in guards(fn, upd) if id(t) in inside]
+                if "species" in ast.unparse(inner.target) and filt:
+                    problems.append(f"the host species of the root object are filtered by `{short(filt[0], 60)}`: with transfers the root can sit anywhere, also below the species spanning the leaves of its children")
                 if "species" in ast.unparse(inner.target) and not whole:
                     problems.append(f"the host species of the root object range over `{short(it, 70)}`, not over every species of the tree")
                 elif "species" in ast.unparse(inner.target) and whole and "species" not in text:
